@@ -22,6 +22,13 @@ if wave > 1 and have:
                   "environment step, vector environments with more than two sub-environments, optional arguments that callers rarely pass); a "
                   "boundary of a counter or index that is only reached after a long or oddly shaped history; a numerically special but legal value; "
                   "state that survives between calls; a change in one function that is only wrong for the way ANOTHER function of the library calls it.\n\n")
+    if wave >= 4:
+        avoid += ("Nine changes per property exist already, so be inventive: prefer (a) code paths selected by NON-DEFAULT arguments or by the less common "
+                  "class / wrapper / variant among those the property quantifies over; (b) helper functions shared by several routines where the change is "
+                  "right for most callers and wrong for one; (c) effects that depend on the dtype, number type, shape (batch of one, extra leading axis, "
+                  "zero-length) or magnitude (very small / very large but finite) of legal inputs; (d) an object used a second time (after pickling / "
+                  "restoring, after a reset, in a second call of the same routine, after the buffer wrapped around twice); (e) a clause of the property "
+                  "that none of the listed changes touches. Re-read the property sentence by sentence and the listed titles before choosing.\n\n")
 k0 = len(have) + 1 if wave > 1 else 1
 print(t.format(WT=wt, N=n, OUT="/tmp/seed-out" + ("" if wave == 1 else str(wave)), PID=pid, TITLE=p["title"], STATEMENT=p["statement"],
                QUANT=p["quantifier"]["text"], FILES=", ".join(p["anchors"]["files"]), AVOID=avoid, K0=k0, K1=k0 + n - 1))
